@@ -8,6 +8,7 @@ package storage
 import (
 	"os"
 	"path"
+	"sync"
 	"time"
 
 	log "github.com/sirupsen/logrus"
@@ -29,6 +30,9 @@ type Store struct {
 
 	badgerDir string
 	bundleDir string
+
+	// writeMutex serializes Push, Update and Delete, which are read-modify-write operations on a BundleItem.
+	writeMutex sync.Mutex
 }
 
 // NewStore creates a new Store or opens an existing Store from the given path.
@@ -71,6 +75,9 @@ func (s *Store) Close() error {
 
 // Push a new/received Bundle to the Store.
 func (s *Store) Push(b bpv7.Bundle) error {
+	s.writeMutex.Lock()
+	defer s.writeMutex.Unlock()
+
 	bi := newBundleItem(b, s.bundleDir)
 
 	if biStore, err := s.QueryId(b.ID()); err != nil {
@@ -131,6 +138,9 @@ func (s *Store) Push(b bpv7.Bundle) error {
 
 // Update an existing BundleItem.
 func (s *Store) Update(bi BundleItem) error {
+	s.writeMutex.Lock()
+	defer s.writeMutex.Unlock()
+
 	log.WithFields(log.Fields{
 		"bundle": bi.Id,
 	}).Debug("Store updates BundleItem")
@@ -140,6 +150,9 @@ func (s *Store) Update(bi BundleItem) error {
 
 // Delete a BundleItem, represented by the "scrubbed" BundleID.
 func (s *Store) Delete(bid bpv7.BundleID) error {
+	s.writeMutex.Lock()
+	defer s.writeMutex.Unlock()
+
 	if bi, err := s.QueryId(bid); err == nil {
 		log.WithFields(log.Fields{
 			"bundle": bid,
